@@ -85,9 +85,32 @@ impl Known {
         t.iter().map(|(c, h)| format!("{}:{}", hex(c), h)).collect::<Vec<_>>().join(";")
     }
     fn canon(&self, s: &str) -> String {
-        let mut out = s.to_string();
+        // replies carry 6-byte digest prefixes.  A generated near-miss digest (a real digest with a late byte changed) shares
+        // its prefix with the real one; a reply can only name the digest of a content that exists, so the real content
+        // wins, and every prefix is replaced exactly once (placeholders contain digest bytes themselves).
+        let mut by_prefix: BTreeMap<String, &Vec<u8>> = BTreeMap::new();
         for (h, c) in &self.by_hash {
-            out = out.replace(&hex(&h[..6]), &format!("h{}", hex(c)));
+            let real = c.as_slice() != &h[..];
+            let e = by_prefix.entry(hex(&h[..6])).or_insert(c);
+            if real {
+                *e = c;
+            }
+        }
+        let mut out = String::new();
+        let mut i = 0;
+        let b = s.as_bytes();
+        while i < b.len() {
+            if i + 12 <= b.len() && s.is_char_boundary(i) && s.is_char_boundary(i + 12) {
+                if let Some(c) = by_prefix.get(&s[i..i + 12]) {
+                    out.push('h');
+                    out.push_str(&hex(c));
+                    i += 12;
+                    continue;
+                }
+            }
+            let ch = s[i..].chars().next().unwrap();
+            out.push(ch);
+            i += ch.len_utf8();
         }
         out.replace("Error:content_hash_mismatch", "Error:mismatch").replace("Error:content_length_mismatch", "Error:mismatch")
     }
